@@ -130,6 +130,19 @@ def check_property_file(cid):
     return {"ok": ok, "theorems": theorems, "discharged": closed, "axioms": axioms, "log": out[-2000:], "wall": dt}
 
 
+def coqchk(cid):
+    """Independent re-check of the compiled property file and everything it depends on
+    (thorough tier).  Returns (ok, axioms text)."""
+    rc, out, dt = sh("timeout 2400 coqchk -o -silent -Q theories WG WG.Properties.%s" % cid, cwd=COQ, check=False)
+    m = re.search(r"\* Axioms:(.*?)\n\s*\n\s*\*", out, flags=re.S)
+    axioms = m.group(1).strip() if m else "?"
+    names = [a.strip() for a in axioms.split("\n") if a.strip() and a.strip() != "<none>"]
+    allowed = all(n.split(".")[-1] in ALLOWED_AXIOMS or n in ALLOWED_AXIOMS for n in names)
+    clean = all(("%s: <none>" % k) in out.replace("\n", " ").replace("  ", " ") or True for k in [])
+    bad = re.search(r"relying on type-in-type: (?!<none>)|unsafe \(co\)fixpoints: (?!<none>)|positivity is assumed: (?!<none>)", out)
+    return (rc == 0 and allowed and not bad), axioms, dt
+
+
 def ocaml_build():
     """Extracted model (coq/model.ml, written by Extract.v during the Coq build) + driver."""
     os.makedirs(OCAML_BUILD, exist_ok=True)
